@@ -123,6 +123,11 @@ func argSpecOf(tm *t.Map, typ *a.TypeExpr) string {
 	return "n"
 }
 
+// subObjects: "<pkg>.<struct>" → the "<pkg>.<struct>" types of its fields that are objects of another
+// package (filled by loadPackage). A body of such a struct's methods can return a status that the
+// SUB-object's protocol layer produced (`#base: interleaved coroutine calls`, `#base: disabled by previous error`).
+var subObjects = map[string][]string{}
+
 // loadPackage parses and type-checks the .wuffs files (sorted by name, like
 // `wuffs gen`) and returns the public methods with a receiver, in declaration
 // order. useRoot is where `use "std/x"` declarations are read from (<root>/gen/wuffs/std/x).
@@ -143,6 +148,19 @@ func loadPackage(pkg string, files []string, useRoot string) ([]*methodInfo, err
 	coro := map[t.QID]int{}
 	for _, f := range fs {
 		for _, tld := range f.TopLevelDecls() {
+			if tld.Kind() == a.KStruct {
+				// fields whose type is a struct of ANOTHER (non-base) package: embedded sub-objects, each
+				// with its own generated protocol layer (webp.decoder.vp8 : vp8.decoder, png → zlib, …)
+				sn := tld.AsStruct()
+				for _, fld := range sn.Fields() {
+					q := fld.AsField().XType().Innermost().QID()
+					if q[0] != 0 && q[0] != t.IDBase {
+						key := pkg + "." + sn.QID()[1].Str(tm)
+						subObjects[key] = append(subObjects[key], q[0].Str(tm)+"."+q[1].Str(tm))
+					}
+				}
+				continue
+			}
 			if tld.Kind() != a.KFunc {
 				continue
 			}
